@@ -1,4 +1,3 @@
 SPECIFICATION TraceSpec
-INVARIANT ModelOK
 POSTCONDITION TraceAccepted
 CHECK_DEADLOCK FALSE
